@@ -235,6 +235,12 @@ class Ctx:
                 eff.add("SUMMARY_WRITE")
             if f.short == "Cluster._mark_complete":
                 eff.add("MARK_COMPLETE")
+            if f.short == "Cluster._serialize":
+                eff.add("SERIALIZE_CONFIG")
+            if f.short == "Cluster._serialize_jobs":
+                eff.add("SERIALIZE_JOBS")
+            if f.short in LOCK_WRAPPERS:
+                eff.add("ACQUIRE_RESULTS" if f.short.startswith("ResultsAggregator") else "ACQUIRE_CLUSTER")
         fn = s.fn
         ext = s.external or ""
         if fn.cls is not None and fn.cls.name == "AsyncCliCommand":
